@@ -15,7 +15,7 @@ LEVEL = "exploration"
 RULE = ("Contract monitors on the real exported v, w, vt, wt, phi_major against 40-digit mpmath values. Sweep: t log-dense "
         "in [1e-8,1e-2] incl. both ends; x uniform in [-40,40], extra density in [-9,9], +-64-ulp neighbourhoods of every "
         "branch threshold located at run time by bisection on the EXACT functions (Phi(x-t)=eps, band mass=1e-5, band "
-        "mass=eps, x=0, x=+-t), signed zeros and denormals; Phi on [-37.5,38] with the lower tail over-sampled. The same "
+        "mass=eps, x=0, x=+-t), signed zeros and denormals; lattice walks (one t, consecutive points x=k/4 walked up and then down, every point judged at both visits and the two visits compared bit for bit - the functions are pure, so a memo that conflates arguments shows); Phi on [-37.5,38] with the lower tail over-sampled. The same "
         "contracts stay attached (rebinding of the names imported by the TM modules) while Thurstone-Mosteller games are "
         "rated, so the arguments the models really produce are judged too (in-situ). Clauses: finite; v>=0; w, wt in "
         "[-s,1+s], s=1e-13/t; v, w within 1e-6 relative where Phi(x-t)>=eps(1+1e-9), within 2% where <=eps(1-1e-9); "
@@ -35,7 +35,7 @@ def floors(tier):
     # modules (e.g. fused helpers) makes it zero, and the dedicated sweep does not depend on it; it is reported in evidence
     q = tier == "quick"
     return {"v": 20000 if q else 2000000, "w": 20000 if q else 2000000, "vt": 20000 if q else 2000000,
-            "wt": 20000 if q else 2000000, "phi": 20000 if q else 2000000, "threshold-neighbourhood": 2000 if q else 100000}
+            "wt": 20000 if q else 2000000, "phi": 20000 if q else 2000000, "repeat/same-value": 5000 if q else 500000, "threshold-neighbourhood": 2000 if q else 100000}
 
 
 def setup(ctx):
@@ -117,6 +117,16 @@ def generate(ctx):
         r = rng.random()
         y = rng.uniform(-37.5, 38) if r < 0.6 else (rng.uniform(-37.5, -30) if r < 0.8 else rng.uniform(-9, -4))
         yield "pt", dict(x=x, t=t, y=y, near=near)
+    # lattice walks: the functions are PURE - the value at (x, t) may not depend on which other arguments were asked about
+    # before.  One t, a window of consecutive lattice points x = k/4 (integers and dyadic fractions, +-0.0 included) walked
+    # upwards and then downwards, every point judged at both visits and the two visits compared bit for bit.
+    for _ in range(ctx.budget(56, 4800)):
+        t = rng.choice(pool + [1e-5, 1e-4, 1e-3])
+        k0 = rng.randint(-160, 160 - 24) if rng.random() < 0.5 else rng.randint(-24, 0)
+        xs = [k / 4.0 for k in range(k0, k0 + 25)]
+        if rng.random() < 0.5:
+            xs = [float(int(x)) for x in xs[::2]] + xs
+        yield "lat", dict(t=t, xs=xs + xs[::-1])
     # in-situ: TM games under the attached contracts
     ng = ctx.budget(1500, 80000)
     for _ in range(ng):
@@ -246,4 +256,29 @@ def probe_game(ctx, payload):
     ctx.case(payload["case"], bool(seen))
 
 
-PROBES = {"pt": probe_pt, "game": probe_game}
+def probe_lat(ctx, payload):
+    t = payload["t"]
+    seen = {}
+    for x in payload["xs"]:
+        for name in ("v", "w", "vt", "wt", "phi_major"):
+            if name == "phi_major" and not (-37.5 <= x <= 38):
+                continue
+            try:
+                got = _F[name](x, t) if name != "phi_major" else _F[name](x)
+            except Exception as e:  # noqa: BLE001
+                ctx.ev(name if name != "phi_major" else "phi")
+                ctx.violation(name + "/exception", "lat", payload, dict(x=x, t=t, exc=repr(e)), None, "exc")
+                continue
+            judge(ctx, "lat", payload, name, x, t, got)
+            key = (name, x, math.copysign(1.0, x))
+            if key in seen:
+                ctx.ev("repeat/same-value")
+                if float(seen[key]).hex() != float(got).hex():
+                    ctx.violation("repeat/same-value", "lat", payload, dict(function=name, x=x, t=t, first=seen[key], again=got), None, "history")
+            else:
+                seen[key] = got
+        ctx.case([x, t, "lat"], abs(x) <= 9)
+    ctx.bucket("lattice_walks", "t_decade=%d" % int(math.floor(math.log10(t))))
+
+
+PROBES = {"pt": probe_pt, "game": probe_game, "lat": probe_lat}
